@@ -45,12 +45,20 @@ Expected(op) ==
     [] op = "trait_setq"         -> Op(1, FALSE)
     [] op = "pickle_roundtrip"   -> Op(1, FALSE)      \* the value sits in the object while it is pickled and unpickled
     [] op = "getstate_ctrait"    -> Op(0, FALSE)
+    \* dynamic defaults: the value is what the _name_default method of a FRESH object returns on its first read; the
+    \* object is dropped again.  ok: stored in that object; rejected: the trait's own validator refuses it (TraitError);
+    \* expr_*: the same for a trait that stores the ORIGINAL value next to the validated one (Expression)
+    [] op = "default_dyn_ok"        -> Op(0, FALSE)
+    [] op = "default_dyn_rejected"  -> Op(0, TRUE)
+    [] op = "default_expr_ok"       -> Op(0, FALSE)
+    [] op = "default_expr_rejected" -> Op(0, TRUE)
 Ops == {"set_any", "set_float_exact", "set_float_convert", "set_int_reject", "set_range_reject", "set_either_reject",
         "set_either_later", "validate_call", "validate_either_reject", "tuple_first_member", "tuple_reject", "list_append",
         "list_append_reject", "list_setslice", "dict_setitem", "set_add_discard", "event_fire", "property_set",
         "property_set_raises", "delegate_set", "set_then_del", "set_notify", "set_notify_raising",
         "handler_removed_in_dispatch", "handler_add_remove", "observe_add_remove", "add_remove_trait", "default_read",
-        "trait_setq", "pickle_roundtrip", "getstate_ctrait"}
+        "trait_setq", "pickle_roundtrip", "getstate_ctrait", "default_dyn_ok", "default_dyn_rejected", "default_expr_ok",
+        "default_expr_rejected"}
 \* the ledger law on one recorded loop c = [op, deltas (per value), persist (deltas of the persistent objects), raised]
 LedgerOK(c) ==
   LET e == Expected(c.op) n == Len(c.deltas) IN
